@@ -389,18 +389,18 @@ Proof.
     + right. split; [exact (list3_nonzero _ Hro)|]. split; [exact (proj1 Hpp)|right; exact Hro].
 Qed.
 
-Lemma pm_final_streams : forall cfg d e o m c,
-  get_stream (pm_final cfg d e o m) c = get_stream (fst (fold_left (c02_obs d) o (pm2 e o m, ""%string))) c.
-Proof. intros. apply get_stream_frame. unfold pm_final. rewrite (proj1 (retry_fold_streams cfg d e o m _)). reflexivity. Qed.
-Lemma pm_final_supplied : forall cfg d e o m, m_supplied (pm_final cfg d e o m) = ev_supplied e ++ m_supplied m.
-Proof. intros. unfold pm_final. rewrite (proj2 (retry_fold_streams cfg d e o m _)). unfold pm3. rewrite c02_fold_supplied, pm2_supplied. apply mon_event_supplied. Qed.
+Lemma pm_final_streams : forall cfg pre d e o m c,
+  get_stream (pm_final cfg pre d e o m) c = get_stream (fst (fold_left (c02_obs d) o (pm2 e o m, ""%string))) c.
+Proof. intros. apply get_stream_frame. unfold pm_final. rewrite (proj1 (retry_fold_streams cfg d e o m _)). rewrite pm_clear_eq. reflexivity. Qed.
+Lemma pm_final_supplied : forall cfg pre d e o m, m_supplied (pm_final cfg pre d e o m) = ev_supplied e ++ m_supplied m.
+Proof. intros. unfold pm_final. rewrite (proj2 (retry_fold_streams cfg d e o m _)). rewrite pm_clear_eq. cbn [m_supplied set]. unfold pm3. rewrite c02_fold_supplied, pm2_supplied. apply mon_event_supplied. Qed.
 
-Lemma InvS_step : forall cfg t0 pfx e h m d,
+Lemma InvS_step : forall cfg t0 pfx e h m pre d,
   fresh_calls [] (pfx ++ [(e, h)]) -> causes_ok (pfx ++ [(e, h)]) -> InvS cfg t0 pfx m ->
   let s := fst (run (init cfg t0) pfx) in
-  InvS cfg t0 (pfx ++ [(e, h)]) (pm_final cfg d e (snd (step s (e, h))) m).
+  InvS cfg t0 (pfx ++ [(e, h)]) (pm_final cfg pre d e (snd (step s (e, h))) m).
 Proof.
-  intros cfg t0 pfx e h m d Hf Hc HI s. set (s' := fst (step s (e, h))). set (o := snd (step s (e, h))).
+  intros cfg t0 pfx e h m pre d Hf Hc HI s. set (s' := fst (step s (e, h))). set (o := snd (step s (e, h))).
   assert (Es' : fst (run (init cfg t0) (pfx ++ [(e, h)])) = s') by apply run_snoc_fst.
   assert (Hev : ev_resp_ok e = true) by (apply (Hc (e, h)); apply in_or_app; right; left; reflexivity).
   unfold InvS. rewrite Es'. split.
